@@ -51,6 +51,15 @@ def builders(c, which, n=2):
         y = Gaussian(LinearModel(A), v, name='y')
         dv = c.real('dv', pos=True)
         return (JointDistribution(d, x, y), dict(y=yobs), lambda o: o.logd(d=dv, x=xp, y=yobs))
+    if which == 'Joint:reduced_factor':
+        # one factor is itself the result of an earlier reduction (it carries the folded constants of the variables fixed then)
+        d = Gamma(c.real('a0', pos=True), c.real('b0', pos=True), name='d')
+        x = Gaussian(np.zeros(n), lambda d: 1 / d * np.ones(n), geometry=n, name='x')
+        y = Gaussian(lambda x: x, v, geometry=n, name='y')
+        D = JointDistribution(d, x, y)(d=c.real('dv', pos=True), x=xp)           # a single density for y with a constant
+        w = Gaussian(c.real('wm'), c.real('wv', pos=True), name='w')
+        wv = c.real('wval'); yp = c.vec('yp', n)
+        return (JointDistribution(D, w), dict(w=wv), lambda o: o.logd(y=yp, w=wv))
     if which == 'Joint:independent_factor':
         a = Gaussian(m, v, name='a'); b = Gamma(c.real('a0', pos=True), c.real('b0', pos=True), name='b')
         x = Gaussian(np.zeros(n), lambda b: 1 / b * np.ones(n), geometry=n, name='x')
@@ -178,6 +187,30 @@ def siblings(c, fam, n=2):
     if g1 is not None: c.eq('first_sibling_gradient_with_its_own_values', g1, direct(a).gradient(x))
 
 
+def size_unknown(c):
+    """a distribution whose dimension is only known once it is conditioned (all size-carrying parameters are callables, no geometry):
+    conditioning it on values of one length must not fix the size of the original or of copies conditioned on other lengths"""
+    from cuqi.distribution import Normal
+    orig = Normal(mean=lambda m: m, std=lambda s: s, name='x')
+    def dim_query(o):
+        try: return ('dim', o.dim)
+        except Exception as e: return ('raises', type(e).__name__)
+    q0 = dim_query(orig)
+    a3 = c.vec('a', 3); a2 = c.vec('b', 2); sd = c.real('sd', pos=True)
+    d3 = orig(m=a3, s=sd)
+    c.holds('first_copy_has_the_length_of_its_values', dim_query(d3) == ('dim', 3), note=str(dim_query(d3)))
+    _ = d3.geometry
+    c.holds('original_dimension_query_unchanged', dim_query(orig) == q0, note=f"{dim_query(orig)} vs {q0}")
+    d2 = orig(m=a2, s=sd)
+    c.holds('second_copy_has_the_length_of_its_own_values', dim_query(d2) == ('dim', 2), note=str(dim_query(d2)))
+    x2 = c.vec('x2', 2); x3 = c.vec('x3', 3)
+    c.eq('second_copy_is_the_distribution_of_its_values', d2.logd(x2), Normal(a2, sd).logd(x2))
+    c.eq('first_copy_still_the_distribution_of_its_values', d3.logd(x3), Normal(a3, sd).logd(x3))
+    d1 = orig(m=c.real('a1'), s=sd)
+    c.holds('scalar_copy_has_dimension_one', dim_query(d1) == ('dim', 1), note=str(dim_query(d1)))
+    c.holds('original_dimension_query_unchanged_at_the_end', dim_query(orig) == q0, note=f"{dim_query(orig)} vs {q0}")
+
+
 def model_application(c, n=2):
     A = c.mat('A', n, n); model = LinearModel(A)
     x = Gaussian(c.vec('m', n), c.vec('v', n, pos=True), name='z')
@@ -235,10 +268,11 @@ def jobs(tier):
           'cuqi.distribution._joint_distribution:JointDistribution._condition', 'cuqi.likelihood._likelihood:Likelihood._condition',
           'cuqi.implicitprior._regularizedGaussian:RegularizedGaussian._condition', 'cuqi.model._model:Model.forward']
     for which in ('Gaussian', 'Gaussian:conditional', 'Gaussian:partial', 'Gaussian:partial3', 'Lognormal', 'RegularizedGaussian', 'GMRF:conditional', 'Gamma:conditional',
-                  'DataDistribution', 'Likelihood', 'Posterior', 'Joint', 'Joint:independent_factor'):
+                  'DataDistribution', 'Likelihood', 'Posterior', 'Joint', 'Joint:independent_factor', 'Joint:reduced_factor'):
         J.append(Job(f'frame:{which}', lambda c, w=which: frame_job(c, w), 'Pbox', FL, maxpaths=256, timeout=600))
     for fam in ('Gaussian', 'Lognormal', 'Lognormal:model'):
         J.append(Job(f'siblings:partially_coinciding_values:{fam}', lambda c, f=fam: siblings(c, f), 'Pbox', FL + ['cuqi.distribution._lognormal:Lognormal._normal'], maxpaths=512, timeout=600, rtol=1e-6))
+    J.append(Job('siblings:size_known_only_after_conditioning', size_unknown, 'Pbox', FL + ['cuqi.distribution._distribution:Distribution.dim'], rtol=1e-6))
     J.append(Job('frame:model_application_and_reconditioning', model_application, 'Pbox', FL))
     J.append(Job('frame:shared_geometry_object', shared_geometry, 'Pbox', ['cuqi.distribution._distribution:Distribution.geometry']))
     J.append(Job('history:thousand_reconditionings_and_sampler_run', lambda c: gibbs_reconditioning(c, 300 if tier == 'quick' else 3000), 'B', FL, nnum=2))
